@@ -45,7 +45,11 @@ fn parse_header(header: &str) -> Result<Header, ParseError> {
 
     let prefix = iterator.next().ok_or(ParseError::MissingPrefix)?;
 
-    if !prefix.is_empty() && PROTOCOL_PREFIX.starts_with(prefix) && header.ends_with(prefix) {
+    if !closed
+        && !prefix.is_empty()
+        && PROTOCOL_PREFIX.starts_with(prefix)
+        && header.ends_with(prefix)
+    {
         return Err(ParseError::Partial);
     } else if prefix != PROTOCOL_PREFIX {
         return Err(ParseError::InvalidPrefix);
@@ -54,7 +58,7 @@ fn parse_header(header: &str) -> Result<Header, ParseError> {
     let addresses = match iterator.next() {
         Some(TCP4) => {
             let (source_address, destination_address, source_port, destination_port) =
-                parse_addresses::<Ipv4Addr, _>(&mut iterator)?;
+                parse_addresses::<Ipv4Addr, _>(&mut iterator, closed)?;
 
             Addresses::Tcp4(IPv4 {
                 source_address,
@@ -65,7 +69,7 @@ fn parse_header(header: &str) -> Result<Header, ParseError> {
         }
         Some(TCP6) => {
             let (source_address, destination_address, source_port, destination_port) =
-                parse_addresses::<Ipv6Addr, _>(&mut iterator)?;
+                parse_addresses::<Ipv6Addr, _>(&mut iterator, closed)?;
 
             Addresses::Tcp6(IPv6 {
                 source_address,
@@ -87,11 +91,12 @@ fn parse_header(header: &str) -> Result<Header, ParseError> {
                 Err(ParseError::MissingNewLine)
             };
         }
-        Some(protocol) if protocol.is_empty() && iterator.peek().is_none() => {
+        Some(protocol) if !closed && protocol.is_empty() && iterator.peek().is_none() => {
             return Err(ParseError::MissingProtocol)
         }
         Some(protocol)
-            if !protocol.is_empty()
+            if !closed
+                && !protocol.is_empty()
                 && header.ends_with(protocol)
                 && (TCP4.starts_with(protocol) || UNKNOWN.starts_with(protocol)) =>
         {
@@ -121,13 +126,20 @@ fn parse_header(header: &str) -> Result<Header, ParseError> {
 /// Parses the addresses and ports from a PROXY protocol header for IPv4 and IPv6.
 fn parse_addresses<'a, T: FromStr<Err = AddrParseError>, I: Iterator<Item = &'a str>>(
     iterator: &mut I,
+    closed: bool,
 ) -> Result<(T, T, u16, u16), ParseError> {
-    let source_address = iterator.next().ok_or(ParseError::MissingSourceAddress)?;
-    let destination_address = iterator
-        .next()
-        .ok_or(ParseError::MissingDestinationAddress)?;
-    let source_port = iterator.next().ok_or(ParseError::MissingSourcePort)?;
-    let destination_port = iterator.next().ok_or(ParseError::MissingDestinationPort)?;
+    // A field can only still arrive while the line is open; in a closed line an absent field is an empty, invalid one.
+    let mut next = |missing| iterator.next().or(closed.then_some("")).ok_or(missing);
+
+    let source_address = next(ParseError::MissingSourceAddress)?;
+    let destination_address = next(ParseError::MissingDestinationAddress)?;
+    let source_port = next(ParseError::MissingSourcePort)?;
+    let destination_port = next(ParseError::MissingDestinationPort)?;
+
+    // An open line that ends right before the destination port may still receive it.
+    if destination_port.is_empty() && !closed {
+        return Err(ParseError::MissingDestinationPort);
+    }
 
     let source_address = source_address
         .parse::<T>()
